@@ -210,6 +210,12 @@ def pattern_shape():
         if name.startswith("content_pattern"):
             continue
         obs.append(flow.ob(f"{name}:closing-delimiter-is-preceded-by-an-optional-hyphen-group", grp is not None, f"h = {grp}; pattern = {text[:120]}"))
+        # whitespace control can be requested on EVERY opening delimiter, also the one of an end tag
+        # inside a block-like pattern ({%- enddoc %}, {%- endraw %}): each opening placeholder in a rule
+        # pattern is directly followed by an optional hyphen (the comment rules have none by design)
+        opens = [m_.end() for m_ in re.finditer(r"\{(tag_s|stmt_s)\}", text)]
+        bare = [text[max(0, e - 8):e + 12] for e in opens if not (text[e:e + 2] == "-?" or text[e:e + 10].startswith("(?P<") and "-?)" in text[e:e + 16])]
+        obs.append(flow.ob(f"{name}:every-opening-delimiter-may-carry-a-hyphen", not bare, f"opening delimiters without an optional hyphen: {bare}", replay_schema="code", replay_extra={"code": REPLAY_OPEN_HYPHEN}))
     # a text run ends at the next opening delimiter or at the END of the source: `$` also
     # matches before a final newline and would split "a\n" into two runs (the second one
     # is then stripped by a pending closing hyphen), `\Z` does not
@@ -231,10 +237,33 @@ def pattern_shape():
     return obs
 
 
+# ---- the liquid tag's line tokenizer (one arbitrary iteration, C20's harness): a comment line
+# ---- hides itself only -- the scan of the tag goes on
+from contracts.C20 import _liquid_tag_tokens  # noqa: E402
+
+for _ep in (True, False):
+    _liquid_tag_tokens(_ep, prop="C10")
+
 not_covered("C10", "that the regular expressions delimit text, raw blocks and comments as intended (laziness/look-ahead of `re` are not modelled): bounded reference-tokenizer check",
             "nested block comments (comment_depth > 0 branch) are covered by the bounded check only", "the liquid tag's inner tokenizer (bounded check)")
 
 bounded("C10", "bounded/C10.py")
+
+REPLAY_OPEN_HYPHEN = r'''
+def run(m):
+    from liquid import Environment
+    env = Environment()
+    bad = []
+    for src, want in (("A {% doc %}d{%- enddoc %} B {% doc %}d{% enddoc %} C", "A  B  C"), ("A {% raw %} r {%- endraw %} B", "A  r  B"), ("a {%- doc -%} x {%- enddoc -%} b", "ab"),
+                      ("A {% doc %}{{ unclosed {%- enddoc %}B", "A B")):
+        try:
+            got = env.from_string(src).render()
+        except Exception as e:
+            got = type(e).__name__
+        if got != want:
+            bad.append((src, got, want))
+    return {"violated": bool(bad), "observed": bad[:3], "witness": "hyphen-on-an-inner-opening-delimiter"}
+'''
 
 REPLAY_EOL = r'''
 def run(m):
